@@ -51,6 +51,9 @@ unsafe impl std::alloc::GlobalAlloc for Counting {
 }
 #[global_allocator]
 static GLOBAL: Counting = Counting;
+thread_local! { static LAST_USED: Cell<u64> = const { Cell::new(0) }; }
+/// bytes the allocator handed out during the most recent `exec` call on this thread
+pub fn last_alloc_used() -> u64 { LAST_USED.with(|b| b.get()) }
 pub fn alloc_reset() { BYTES.with(|b| b.set(0)); FREED.with(|b| b.set(0)); }
 pub fn alloc_read() -> u64 { BYTES.with(|b| b.get()) }
 /// bytes allocated minus bytes freed on this thread since the last `alloc_reset` (what a call sequence retains)
@@ -87,6 +90,30 @@ fn start_watchdog(dir: &str) {
     });
 }
 
+// ---------------------------------------------------------------------------------------------
+// process-wide panic counter ("no panic in any task"): tokio catches panics of spawned tasks, so a panic that does
+// not unwind through `catch_unwind` of `exec` would be lost. The hook below (chained in front of the one installed by
+// `crate::catch`) counts EVERY panic of the process and keeps its location; `exec` fails the case when the counter
+// moved although the call itself returned.
+static PANICS: std::sync::atomic::AtomicU64 = std::sync::atomic::AtomicU64::new(0);
+static LAST_PANIC: parking_lot::Mutex<String> = parking_lot::Mutex::new(String::new());
+pub fn install_panic_counter() {
+    static ONCE: std::sync::Once = std::sync::Once::new();
+    ONCE.call_once(|| {
+        let _ = catch(|| ());                                   // makes lib.rs install its hook first
+        let prev = std::panic::take_hook();
+        std::panic::set_hook(Box::new(move |info| {
+            PANICS.fetch_add(1, std::sync::atomic::Ordering::SeqCst);
+            let loc = info.location().map(|l| format!("{}:{}", l.file(), l.line())).unwrap_or_default();
+            let msg = if let Some(s) = info.payload().downcast_ref::<&str>() { s.to_string() }
+                      else if let Some(s) = info.payload().downcast_ref::<String>() { s.clone() } else { "?".into() };
+            *LAST_PANIC.lock() = format!("{loc}: {msg}");
+            prev(info);
+        }));
+    });
+}
+pub fn panic_count() -> u64 { PANICS.load(std::sync::atomic::Ordering::SeqCst) }
+
 /// strip the absolute prefix of a panic location so signatures are stable: `…/src/rtp.rs:231` → `src/rtp.rs:231`
 pub fn panic_site(msg: &str) -> String {
     let loc = msg.split(": ").next().unwrap_or("");
@@ -99,15 +126,25 @@ pub fn exec<F: FnOnce() -> String + std::panic::UnwindSafe>(
     run: &mut Run, stream: &str, input: &str, entry: &str, nontrivial: bool, bound: Option<(u64, u64, u64)>, f: F,
 ) -> String {
     let case = format!("{stream} {input}");
+    install_panic_counter();
+    let panics0 = panic_count();
     *WATCH.lock() = Some((entry.to_string(), case.clone(), Instant::now()));
     alloc_reset();
     let t0 = Instant::now();
     let r = catch(f);
     let dt = t0.elapsed();
     let used = alloc_read();
+    LAST_USED.with(|b| b.set(used));
     *WATCH.lock() = None;
     let out = match r {
-        Ok(s) => s,
+        Ok(s) => {
+            if panic_count() != panics0 {
+                // a panic happened somewhere in the process (a spawned task) while this call ran and did not reach us
+                let msg = LAST_PANIC.lock().clone();
+                run.fail(&format!("panic:{entry}(task):{}", panic_site(&msg)), &case, &msg);
+                "panic".to_string()
+            } else { s }
+        }
         Err(msg) => {
             run.fail(&format!("panic:{entry}:{}", panic_site(&msg)), &case, &msg);
             "panic".to_string()
@@ -269,6 +306,10 @@ fn replay(case: &str) {
 }
 
 pub fn run(args: &Args) {
+    // `anyhow` captures a backtrace (≈ 3–4 KB of allocation and a stack walk) for every error when RUST_BACKTRACE /
+    // RUST_LIB_BACKTRACE is set; the allocation oracles are calibrated for the default (unset) configuration.
+    // Single-threaded at this point.
+    unsafe { std::env::set_var("RUST_BACKTRACE", "0"); std::env::set_var("RUST_LIB_BACKTRACE", "0"); }
     if let Some(c) = &args.replay { replay(c); return; }
     let mut run = Run::new("c07", &args.out);
     start_watchdog(&args.out);
